@@ -372,6 +372,13 @@ pub fn gen_list(r: &mut Rng, p: &Profile, max: usize) -> Vec<String> {
             // exact duplicate
             let d = r.pick(&rules).clone();
             rules.push(d);
+        } else if !rules.is_empty() && r.chance(1, 10) {
+            // near twin: same pattern, one option aspect different (or merely respelt)
+            let base = r.pick(&rules).clone();
+            match near_twin(r, &base, p) {
+                Some(t) => rules.push(t),
+                None => rules.push(gen_rule(r, p)),
+            }
         } else if p.badfilter && !rules.is_empty() && r.chance(1, 10) {
             let base = r.pick(&rules).clone();
             if base.contains('$') {
@@ -384,6 +391,70 @@ pub fn gen_list(r: &mut Rng, p: &Profile, max: usize) -> Vec<String> {
         }
     }
     rules
+}
+
+/// A rule with the same pattern as `rule` whose options differ in exactly one aspect that the
+/// rule's stored identity may or may not cover: a negated `domain=` entry, a `tag=`, option
+/// order/spelling (which must not matter at all).
+pub fn near_twin(r: &mut Rng, rule: &str, p: &Profile) -> Option<String> {
+    let (body, opts) = match rule.rfind('$') {
+        Some(i) if !rule[i..].contains('/') && !rule[i..].contains(')') => (&rule[..i], &rule[i + 1..]),
+        Some(_) => return None,
+        None => (rule, ""),
+    };
+    if body.is_empty() || opts.contains("badfilter") {
+        return None;
+    }
+    let mut parts: Vec<String> = opts.split(',').filter(|s| !s.is_empty()).map(|s| s.to_string()).collect();
+    let dom = parts.iter().position(|o| o.starts_with("domain="));
+    let tag = parts.iter().position(|o| o.starts_with("tag="));
+    match r.below(4) {
+        0 | 1 if dom.is_some() => {
+            let i = dom.unwrap();
+            let mut ds: Vec<String> = parts[i]["domain=".len()..].split('|').map(|s| s.to_string()).collect();
+            let k = r.below(ds.len());
+            ds[k] = match ds[k].strip_prefix('~') {
+                Some(x) => x.to_string(),
+                None => format!("~{}", ds[k]),
+            };
+            parts[i] = format!("domain={}", ds.join("|"));
+        }
+        0 | 1 if p.domains && !opts.contains("csp=") => {
+            let h = r.ps(HOSTS);
+            parts.push(if r.chance(1, 2) { format!("domain={}", h) } else { format!("domain=~{}", h) });
+        }
+        2 if tag.is_some() => {
+            parts.remove(tag.unwrap());
+        }
+        2 if p.tags && !opts.contains("removeparam") && !opts.contains("redirect") && !opts.contains("generichide") => {
+            parts.push(format!("tag={}", r.ps(TAGS)));
+        }
+        _ => {
+            if parts.len() < 2 {
+                return None;
+            }
+            r.shuffle(&mut parts);
+            for o in parts.iter_mut() {
+                let re = match o.as_str() {
+                    "third-party" => "3p",
+                    "3p" => "third-party",
+                    "~third-party" => "1p",
+                    "1p" => "~third-party",
+                    "xhr" => "xmlhttprequest",
+                    "xmlhttprequest" => "xhr",
+                    "stylesheet" => "css",
+                    "css" => "stylesheet",
+                    _ => continue,
+                };
+                *o = re.to_string();
+            }
+        }
+    }
+    if parts.is_empty() {
+        Some(body.to_string())
+    } else {
+        Some(format!("{}${}", body, parts.join(",")))
+    }
 }
 
 /// Instantiate the body of a rule as literal URL text: `*` → random run, `^` → a separator.
@@ -575,6 +646,9 @@ pub fn gen_cluster(r: &mut Rng, p: &Profile) -> Vec<String> {
     let mut out = vec![];
     // a small option pool so that masks repeat (=> fusion groups of size > 1)
     let pool: Vec<&str> = vec!["", "", "", "script", "image", "script,image", "third-party", "~third-party", "xhr"];
+    // sometimes the whole cluster consists of removeparam rules (same bucket, same mask, different
+    // parameter names): the category an explicit optimize() must leave alone
+    let rp_cluster = p.removeparam && r.chance(1, 8);
     for _ in 0..n {
         let mut s = String::new();
         let exception = p.exceptions && r.chance(1, 5);
@@ -618,6 +692,10 @@ pub fn gen_cluster(r: &mut Rng, p: &Profile) -> Vec<String> {
             }
             5 if p.full_regex && shape == 7 => opts.push("match-case".into()),
             _ => {}
+        }
+        if rp_cluster && !exception && (shape != 7 || !p.full_regex) {
+            opts.retain(|o| !o.starts_with("csp=") && !o.starts_with("redirect=") && !o.starts_with("tag=") && o != "important");
+            opts.push(format!("removeparam={}", r.ps(&["ad", "foo", "x1", "utm_source", "fbclid", "y"])));
         }
         if !opts.is_empty() {
             s.push('$');
@@ -684,6 +762,12 @@ pub fn gen_clustered_list(r: &mut Rng, p: &Profile) -> Vec<String> {
     let extra = r.below(6);
     for _ in 0..extra {
         rules.push(gen_rule(r, p));
+    }
+    for _ in 0..r.below(3) {
+        let base = r.pick(&rules).clone();
+        if let Some(t) = near_twin(r, &base, p) {
+            rules.push(t);
+        }
     }
     r.shuffle(&mut rules);
     rules
